@@ -331,6 +331,19 @@ def _dispatch(ctx: Ctx, model, base, msg):
             ctx.fail(cons, pi.loc(), f"{c.name}.__post_init__ does not store self.code into header.command_code")
         if not sup:
             ctx.fail(cons + "#super", pi.loc(), f"{c.name}.__post_init__ does not call super().__post_init__()")
+    for gc in (msg, base.classes.get("DefinedMessage"), base.classes.get("UndefinedMessage")):
+        pi = gc.methods.get("__post_init__") if gc else None
+        cons = f"{gc.name}.__post_init__:generic"
+        ctx.inst(cons)
+        if pi is not None:
+            for n in ast.walk(pi.node):
+                if isinstance(n, (ast.Assign, ast.AugAssign)):
+                    for t in A.store_targets(n):
+                        if A.dotted(t).startswith("self.header."):
+                            ctx.fail(cons, pi.loc(n), f"the generic class {gc.name} overwrites "
+                                     f"`{A.dotted(t)}` on construction: a message with an unknown "
+                                     f"command code is decoded (and answered) with the class default "
+                                     f"{gc.name}.code = 0 instead of the received code")
     # from_bytes
     fb = msg.methods.get("from_bytes")
     g = cfg_of(fb)
@@ -520,3 +533,17 @@ def _search(ctx: Ctx, model, base, msg):
             ctx.fail(cons + "#store", fa.loc(), "search results are not cached under the path key")
         if any(isinstance(n, ast.Global) for n in ast.walk(fa.node)) or "self." not in ast.unparse(st[0].targets[0] if st else fa.node):
             ctx.fail(cons + "#scope", fa.loc(), "the search cache is not per message")
+        cache_attr = None
+        if st:
+            t0 = [t for t in st[0].targets if isinstance(t, ast.Subscript)][0]
+            cache_attr = t0.value.attr if isinstance(t0.value, ast.Attribute) else None
+        init_ = msg.methods.get("__init__")
+        per_instance = cache_attr and any(
+            isinstance(n, ast.Assign) and any(isinstance(t, ast.Attribute) and t.attr == cache_attr
+                                              and A.dotted(t.value) == "self" for t in n.targets)
+            for n in ast.walk(init_.node))
+        class_level = [k for k in msg.class_assigns if cache_attr and k.lstrip("_") == cache_attr.lstrip("_")]
+        if not per_instance or class_level:
+            ctx.fail(cons + "#scope", msg.loc(), "the search cache is not created per message in "
+                     "__init__ (a class-level dict is shared by all messages: a search on a freshly "
+                     "decoded message returns another message's AVPs)")
